@@ -40,7 +40,7 @@ func badKinds() []badKind {
 }
 
 // c18File places the bad field below root Beta at the given position chain ("" = in Beta itself).
-func c18File(bk badKind, chainPos []string) (*dsl.File, string, string) {
+func c18File(bk badKind, chainPos []string, sole bool) (*dsl.File, string, string) {
 	f := space.F5File()
 	var beta *dsl.Message
 	for _, m := range f.Messages {
@@ -55,6 +55,10 @@ func c18File(bk badKind, chainPos []string) (*dsl.File, string, string) {
 	}
 	// innermost message that holds the bad field
 	hole := &dsl.Message{Name: "Hole", Fields: []*dsl.Field{{Name: "Fine", Num: 1, T: dsl.String}, bad}}
+	if sole {
+		// the unmappable field is the only field of its message
+		hole.Fields = []*dsl.Field{bad}
+	}
 	f.Messages = append(f.Messages, hole)
 	inner := "Hole"
 	path := ""
@@ -170,17 +174,22 @@ func checkC18(r *Run) int {
 	var metas []meta
 	var compile []*space.Case
 	for _, bk := range badKinds() {
-		for _, ch := range chains {
-			file, path, typeKey := c18File(bk, ch)
+		for ci, ch := range append(append([][]string{}, chains...), chains[1:]...) {
+			sole := ci >= len(chains)
+			file, path, typeKey := c18File(bk, ch, sole)
 			file.Pkg, file.Name = "f5", "f5.proto"
 			fd := file.Descriptor()
+			soleTag := ""
+			if sole {
+				soleTag = "|only-field"
+			}
 			for _, oth := range others {
 				// reference: bad root not selected
 				refCfg := space.BaseConfig(oth...)
 				bk.cfg(refCfg)
 				refIdx := len(execs)
-				execs = append(execs, &gExec{Label: fmt.Sprintf("ref|%s|%s|%s", bk.name, strings.Join(ch, ">"), strings.Join(oth, "+")), FD: fd, YAML: refCfg.YAML(nil, nil)})
-				metas = append(metas, meta{kind: bk.name, chain: strings.Join(ch, ">"), excl: "ref", others: oth, ref: -1})
+				execs = append(execs, &gExec{Label: fmt.Sprintf("ref|%s|%s%s|%s", bk.name, strings.Join(ch, ">"), soleTag, strings.Join(oth, "+")), FD: fd, YAML: refCfg.YAML(nil, nil)})
+				metas = append(metas, meta{kind: bk.name, chain: strings.Join(ch, ">") + soleTag, excl: "ref", others: oth, ref: -1})
 				for _, ex := range []string{"none", "path", "typekey"} {
 					cfg := space.BaseConfig(append(append([]string{}, oth...), "Beta")...)
 					bk.cfg(cfg)
@@ -190,12 +199,12 @@ func checkC18(r *Run) int {
 					case "typekey":
 						cfg.Exclude = []string{typeKey}
 					}
-					label := fmt.Sprintf("%s|%s|excl=%s|%s", bk.name, strings.Join(ch, ">"), ex, strings.Join(oth, "+"))
+					label := fmt.Sprintf("%s|%s%s|excl=%s|%s", bk.name, strings.Join(ch, ">"), soleTag, ex, strings.Join(oth, "+"))
 					fc := *file
 					c := &space.Case{Label: "C18/" + label, Family: "F5x", Tags: map[string]string{"class": "multiroot", "card": bk.name, "vt": "unmappable", "pos": strings.Join(ch, ">"), "excl": ex}, File: &fc, Cfg: cfg}
 					execs = append(execs, &gExec{Label: label, FD: fd, YAML: cfg.YAML(nil, nil)})
-					metas = append(metas, meta{kind: bk.name, chain: strings.Join(ch, ">"), excl: ex, others: oth, ref: refIdx, c: c})
-					if len(oth) == 1 || r.Tier == "thorough" {
+					metas = append(metas, meta{kind: bk.name, chain: strings.Join(ch, ">") + soleTag, excl: ex, others: oth, ref: refIdx, c: c})
+					if (len(oth) == 1 && (!sole || len(ch) == 1)) || r.Tier == "thorough" {
 						compile = append(compile, c)
 					}
 				}
